@@ -29,6 +29,9 @@
   below `<path>.Env`; `path` itself may carry index groups); `env_exact` keeps its key-only frame clause.
 -/
 import YtkProofs.PipelineFrame
+import YtkProofs.GapPipelineOps
+import YtkProofs.Codec
+import YtkProofs.ValidB
 import YtkProofs.EnvFrame
 import YtkProofs.PipelineDataWF
 import YtkProofs.MergeRel
@@ -39,6 +42,11 @@ import YtkProofs.Decisions
 import YtkModel.Generated.Constants
 import YtkProofs.Decisions2
 import YtkProofs.FuncsLemmas
+import YtkProofs.GapPipelineData
+import YtkProofs.GapPipelinePatch
+import YtkProofs.GapPatchFrame
+import YtkProofs.TplFuncs
+import YtkProofs.OpsExt
 
 namespace Ytk.C13
 
@@ -1281,6 +1289,465 @@ theorem nonvacuous_heap_patchOp_runs_fold :
 
 end heap
 
+/-! ## round 7 (clause audit): import at the root, the export table of `exportOp` itself, the two base64 models -/
+
+/-- ImportOp's loop over the decoded document's children (empty path) is literally SetOp's replace loop -/
+theorem importRoot_eq_setReplaceRoot (data : AMap Node) (kvs : List (String × Node)) :
+    importRoot data kvs = setReplaceRoot data kvs :=
+  PD.importRoot_eq_setReplaceRoot kvs data
+
+/-- the structured modes hand the decoder's container to the operation -/
+theorem import_root_structured (cd : Codecs) (bytes : List Nat) :
+    toValue cd "yaml" bytes = (cd.yaml bytes).map .cont ∧
+    toValue cd "json" bytes = (cd.json bytes).map .cont ∧
+    toValue cd "properties" bytes = (cd.props bytes).map .cont := by
+  simp [toValue]
+
+/-- Import with an EMPTY (rendered) path and a mode whose decoder returns the container `kvs` merges per key
+    at the root and changes nothing else: no error, every key of the decoded document holds the decoded
+    value afterwards, and every other top-level key of the data is untouched.  (Decoded keys: plain child
+    names, pairwise different — the children of a container built by FromReader from path-safe keys.) -/
+theorem import_root_lookup (cd : Codecs) (lenient : String → String) (bytes : List Nat) (mode path : String)
+    (data kvs : AMap Node) (hp : lenient path = "") (hv : toValue cd mode bytes = some (.cont kvs))
+    (hk : ∀ p ∈ kvs, KeyPlain p.1) (hd : kvs.Pairwise (fun p p' => p.1 ≠ p'.1)) :
+    (importOp cd lenient (some bytes) mode path data).2 = false ∧
+    (∀ p ∈ kvs, AMap.get? (importOp cd lenient (some bytes) mode path data).1 p.1 = some p.2) ∧
+    (∀ k, (∀ p ∈ kvs, p.1 ≠ k) →
+      AMap.get? (importOp cd lenient (some bytes) mode path data).1 k = AMap.get? data k) := by
+  have h : importOp cd lenient (some bytes) mode path data = (setReplaceRoot data kvs, false) := by
+    simp [importOp, hv, hp, PD.importRoot_eq_setReplaceRoot]
+  rw [h]
+  exact ⟨rfl, setReplaceRoot_spec kvs data hk hd⟩
+
+/-- … it is the very document SetOp (strategy replace, empty path) produces for the decoded payload, for
+    ALL decoded key sets (dotted keys and index groups included) -/
+theorem import_root_eq_set_replace (cd : Codecs) (lenient : String → String) (bytes : List Nat)
+    (mode path : String) (data kvs : AMap Node) (hp : lenient path = "")
+    (hv : toValue cd mode bytes = some (.cont kvs)) :
+    Outcome.ok (importOp cd lenient (some bytes) mode path data).1 =
+      setOp mergeC data (some kvs) "" (some "replace") := by
+  simp [importOp, hv, hp, PD.importRoot_eq_setReplaceRoot, setOp, setReplace]
+
+/-- non-vacuity: yaml mode at the root of `exData` with the probe codecs: the key `codec` arrives between
+    the untouched `a` and `k` -/
+theorem nonvacuous_import_root :
+    toValue probeCodecs "yaml" [104, 105] = some (.cont [("codec", .leaf ⟨"string", "yaml"⟩)]) ∧
+    (∀ p ∈ ([("codec", .leaf ⟨"string", "yaml"⟩)] : AMap Node), KeyPlain p.1) ∧
+    importOp probeCodecs id (some [104, 105]) "yaml" "" exData =
+      ([("a", .cont [("b", .leaf ⟨"int", "1"⟩), ("c", .cont [("d", .leaf ⟨"string", "x"⟩)])]),
+        ("codec", .leaf ⟨"string", "yaml"⟩), ("k", .leaf ⟨"bool", "true"⟩)], false) := by
+  refine ⟨by decide, ?_, by decide⟩
+  intro p hp
+  simp only [List.mem_singleton] at hp
+  subst hp
+  exact ⟨by decide, by decide⟩
+
+/-- what ExportOp.Do resolves: a nil Path is the whole document, otherwise Lookup of the resolved path -/
+def exportTarget (r : String → Option String) (path : Option ValOrRef) (data : AMap Node) : Option Node :=
+  match path with
+  | none => some (.cont data)
+  | some p => lookup data (p.resolve r data)
+
+/-- `exportOp` is a function of the format, `canOpen` and `exportTarget` -/
+theorem exportOp_eq (r : String → Option String) (format : String) (path : Option ValOrRef) (canOpen : Bool)
+    (data : AMap Node) :
+    exportOp r format path canOpen data =
+      match exportDecision (Format.ofString format) (Target.of (exportTarget r path data)) with
+      | .errorBeforeOpen => (true, false, none)
+      | .panic => (true, false, none)
+      | dec =>
+        if !canOpen then (true, false, none)
+        else match dec, exportTarget r path data with
+          | .errorAfterOpen, _ => (true, true, none)
+          | .writeNode, some (.cont kvs) => (false, true, some (.doc (Format.ofString format) kvs))
+          | .writeEmptyDoc, _ => (false, true, some (.doc (Format.ofString format) []))
+          | .writeLeafText, some (.leaf v) => (false, true, some (.text v.text))
+          | .writeEmptyText, _ => (false, true, some (.text ""))
+          | _, _ => (true, true, none) := by
+  cases path <;> rfl
+
+/-- The result (error flag, file opened, what was handed to the encoder) of `exportOp` ITSELF — the function
+    the driver runs — for every format × kind of target × canOpen, for an arbitrary path:
+    * unknown format: error, file not opened, whatever else;
+    * the file cannot be opened: error, nothing written, whatever the format;
+    * text: absent → the empty text; leaf → its `%v`; list / container → error AFTER the file was opened
+      (created / truncated);
+    * yaml / json / properties: container → that container; absent / leaf / list → the empty document. -/
+theorem exportOp_table (r : String → Option String) (format : String) (path : Option ValOrRef) (canOpen : Bool)
+    (data : AMap Node) :
+    (Format.ofString format = .unknown → exportOp r format path canOpen data = (true, false, none)) ∧
+    (canOpen = false → exportOp r format path canOpen data = (true, false, none)) ∧
+    (canOpen = true →
+      (Format.ofString format = .text →
+        (exportTarget r path data = none →
+          exportOp r format path canOpen data = (false, true, some (.text ""))) ∧
+        (∀ v, exportTarget r path data = some (.leaf v) →
+          exportOp r format path canOpen data = (false, true, some (.text v.text))) ∧
+        (∀ xs, exportTarget r path data = some (.list xs) →
+          exportOp r format path canOpen data = (true, true, none)) ∧
+        (∀ kvs, exportTarget r path data = some (.cont kvs) →
+          exportOp r format path canOpen data = (true, true, none))) ∧
+      (∀ f, Format.ofString format = f → f = .yaml ∨ f = .json ∨ f = .properties →
+        (∀ kvs, exportTarget r path data = some (.cont kvs) →
+          exportOp r format path canOpen data = (false, true, some (.doc f kvs))) ∧
+        (exportTarget r path data = none →
+          exportOp r format path canOpen data = (false, true, some (.doc f []))) ∧
+        (∀ v, exportTarget r path data = some (.leaf v) →
+          exportOp r format path canOpen data = (false, true, some (.doc f []))) ∧
+        (∀ xs, exportTarget r path data = some (.list xs) →
+          exportOp r format path canOpen data = (false, true, some (.doc f []))))) := by
+  rw [exportOp_eq]
+  refine ⟨?_, ?_, ?_⟩
+  · intro h; simp [h, exportDecision]
+  · intro h; subst h
+    cases Format.ofString format <;> cases hd : exportTarget r path data with
+    | none => simp [exportDecision, Target.of]
+    | some n => cases n <;> simp [exportDecision, Target.of]
+  · intro h; subst h
+    refine ⟨?_, ?_⟩
+    · intro hf
+      refine ⟨?_, ?_, ?_, ?_⟩ <;> intros <;> simp_all [exportDecision, Target.of]
+    · intro f hf hk
+      subst hf
+      refine ⟨?_, ?_, ?_, ?_⟩ <;> intros <;> rcases hk with hk | hk | hk <;>
+        simp_all [exportDecision, Target.of]
+
+/-- non-vacuity: every row of the table occurs on `exData` (whole document, the container `a`, the leaf `k`,
+    the missing `zz`; `exList` for a list target) -/
+theorem nonvacuous_exportOp_table :
+    exportOp (fun _ => none) "toml" none true exData = (true, false, none) ∧
+    exportOp (fun _ => none) "yaml" none false exData = (true, false, none) ∧
+    (exportOp (fun _ => none) "text" (some ⟨false, "", "zz"⟩) true exData).2.1 = true ∧
+    (exportOp (fun _ => none) "text" (some ⟨false, "", "k"⟩) true exData).1 = false ∧
+    exportOp (fun _ => none) "text" (some ⟨false, "", "a"⟩) true exData = (true, true, none) ∧
+    (exportOp (fun _ => none) "json" (some ⟨false, "", "a"⟩) true exData).1 = false ∧
+    (exportOp (fun _ => none) "properties" (some ⟨false, "", "k"⟩) true exData).1 = false ∧
+    exportTarget (fun _ => none) (some ⟨false, "", "k"⟩) exData = some (.leaf ⟨"bool", "true"⟩) ∧
+    exportTarget (fun _ => none) (some ⟨false, "", "zz"⟩) exData = none ∧
+    exportTarget (fun _ => none) none exData = some (.cont exData) := by
+  refine ⟨rfl, rfl, by decide, by decide, rfl, by decide, by decide, by decide, by decide, rfl⟩
+
+/-- C13 ↔ C17: the pipeline's base64 model and the k8s one (`K8s.b64encL`, which has the proved decoding
+    round trip) produce the same characters on EVERY byte list -/
+theorem b64Encode_eq_k8s (bs : List UInt8) : b64Encode (bs.map UInt8.toNat) = K8s.b64encL bs :=
+  PD.b64Encode_eq_k8s bs
+
+/-- … so the leaf stored by binary-mode import is the standard base64 text of the content, and it
+    base64-DEcodes (with C17's decoder) to exactly the imported bytes -/
+theorem import_binary_decodes (cd : Codecs) (lenient : String → String) (bs : List UInt8)
+    (path : String) (data : AMap Node) (hp : lenient path ≠ "") :
+    ∃ s : String,
+      lookup (importOp cd lenient (some (bs.map UInt8.toNat)) "binary" path data).1 (lenient path) =
+        some (.leaf ⟨"string", s⟩) ∧
+      s = K8s.b64enc bs ∧ K8s.b64dec s = some bs := by
+  refine ⟨K8s.b64enc bs, ?_, rfl, K8s.b64dec_b64enc bs⟩
+  rw [(import_binary_b64 cd lenient _ path data hp).2, PD.b64Encode_eq_k8s]
+  rfl
+
+/-- non-vacuity: the bytes `68 69 00 ff` imported in binary mode at `a.bin` are stored as `aGkA/w==`,
+    which decodes to them -/
+theorem nonvacuous_import_binary_decodes :
+    lookup (importOp probeCodecs id (some ([104, 105, 0, 255].map UInt8.toNat)) "binary" "a.bin" exData).1 "a.bin" =
+      some (.leaf ⟨"string", "aGkA/w=="⟩) ∧
+    K8s.b64dec "aGkA/w==" = some [104, 105, 0, 255] := by
+  decide +kernel
+
+/-! ## round 7: PatchOp over the patch package's model (C13 ↔ C09)
+
+  `patchOp_eq_patch` above holds for an ARBITRARY function `patchDo`.  Here the parameters are C09's model
+  (YtkModel/GapPipelinePatch.lean): `parsePath := Ptr.parseS` (patch.ParsePath), `patchDo := c09PatchDo`, i.e.
+  `Patch.patchDo` (patch.Do) run on the operation object `c09Obj call` and the root container `.cont data`;
+  `patchOpC09` is `patchOp` with these.  (The driver's `patchargs` op only runs `patchArgs`, with a parser
+  that checks the leading '/'; the patch.Do part is C09's driver.) -/
+
+/-- PatchOp.Do is C09's interpreter on the operation object built from the rendered path (parsed as a JSON
+    pointer), the op name, the parsed `from` (absent when empty) and the value — the immediate one, else the
+    node found at the rendered valueFrom -/
+theorem patchOpC09_eq (lenient : String → String) (ps : PatchSpec) (data : AMap Node)
+    (call : PatchCall Ptr.Path) (h : patchArgs Ptr.parseS lenient ps data = some call) :
+    patchOpC09 lenient ps data = c09PatchDo call data ∧
+    (c09Obj call).op = ps.op ∧
+    Ptr.parseS (lenient ps.path) = (c09Obj call).path ∧
+    (c09Obj call).frm = (if ps.from_ = "" then none else Ptr.parseS ps.from_) ∧
+    (c09Obj call).value = (match ps.value with
+      | some v => some v
+      | none => match ps.valueFrom with
+        | some vf => lookup data (lenient vf)
+        | none => none) := by
+  obtain ⟨h1, h2, h3, h4⟩ := patchArgs_fields _ _ _ _ _ h
+  exact ⟨patchOp_eq_patch _ _ _ _ _ _ h, h1, h2, h3, h4⟩
+
+/-- In C09's domain (in-scope non-root pointers, valid value, valid document) the conversion between the root
+    container and its children loses nothing: C09's interpreter returns exactly the container of the
+    pipeline op's new data, with `err` / `ok` as the op's error flag; and the pipeline op IS the RFC 6902
+    reference on that operation object — the reference's document on success, the old data and the error flag
+    on failure. -/
+theorem patchOp_refines_C09 (lenient : String → String) (ps : PatchSpec) (data : AMap Node)
+    (call : PatchCall Ptr.Path) (h : patchArgs Ptr.parseS lenient ps data = some call)
+    (ho : Patch.OpOk (c09Obj call)) (hd : (Node.cont data).Valid) :
+    Patch.patchDo (c09Obj call) (.cont data) =
+      (.cont (patchOpC09 lenient ps data).1, if (patchOpC09 lenient ps data).2 then .err else .ok ()) ∧
+    patchOpC09 lenient ps data = (match Patch.rfc6902 (c09Obj call) (.cont data) with
+      | some (.cont d') => (d', false)
+      | _ => (data, true)) := by
+  have e : patchOpC09 lenient ps data = c09PatchDo call data := patchOp_eq_patch _ _ _ _ _ _ h
+  rw [e]
+  exact ⟨patchDo_eq_c09PatchDo call data ho hd, c09PatchDo_eq_rfc call data ho hd⟩
+
+/-- C09's no-panic theorem transferred: the patch.Do call made by the pipeline op never panics, so the
+    error flag of the pipeline op (which cannot tell `err` from `panic`) is exactly "patch.Do returned an
+    error" -/
+theorem patchOp_C09_no_panic (lenient : String → String) (ps : PatchSpec) (data : AMap Node)
+    (call : PatchCall Ptr.Path) (h : patchArgs Ptr.parseS lenient ps data = some call)
+    (ho : Patch.OpOk (c09Obj call)) (hd : (Node.cont data).Valid) :
+    (Patch.patchDo (c09Obj call) (.cont data)).2 ≠ .panic ∧
+    ((patchOpC09 lenient ps data).2 = true ↔ (Patch.patchDo (c09Obj call) (.cont data)).2 = .err) := by
+  rw [(patchOp_refines_C09 lenient ps data call h ho hd).1]
+  cases (patchOpC09 lenient ps data).2 <;> simp
+
+/-- C09's "failure leaves the document unchanged" transferred to the WHOLE pipeline op (unparsable paths
+    included): whenever PatchOp.Do returns an error the data is exactly what it was -/
+theorem patchOp_C09_error_unchanged (lenient : String → String) (ps : PatchSpec) (data : AMap Node)
+    (ho : ∀ call, patchArgs Ptr.parseS lenient ps data = some call → Patch.OpOk (c09Obj call))
+    (hd : (Node.cont data).Valid) (he : (patchOpC09 lenient ps data).2 = true) :
+    (patchOpC09 lenient ps data).1 = data := by
+  cases h : patchArgs Ptr.parseS lenient ps data with
+  | none => simp [patchOpC09, patchOp, h]
+  | some call =>
+    have e : patchOpC09 lenient ps data = c09PatchDo call data := patchOp_eq_patch _ _ _ _ _ _ h
+    rw [e] at he ⊢
+    exact c09PatchDo_error_unchanged call data (ho call h) hd he
+
+/-- … and the data stays a valid document (sorted unique keys without index groups), error or not -/
+theorem patchOp_C09_valid (lenient : String → String) (ps : PatchSpec) (data : AMap Node)
+    (ho : ∀ call, patchArgs Ptr.parseS lenient ps data = some call → Patch.OpOk (c09Obj call))
+    (hd : (Node.cont data).Valid) : (Node.cont (patchOpC09 lenient ps data).1).Valid := by
+  cases h : patchArgs Ptr.parseS lenient ps data with
+  | none => simpa [patchOpC09, patchOp, h] using hd
+  | some call =>
+    have e : patchOpC09 lenient ps data = c09PatchDo call data := patchOp_eq_patch _ _ _ _ _ _ h
+    rw [e]
+    exact c09PatchDo_valid call data (ho call h) hd
+
+def exPatchData : AMap Node :=
+  [("a", .list [.leaf ⟨"int", "1"⟩, .leaf ⟨"int", "2"⟩]), ("b", .cont [("x", .leaf ⟨"int", "1"⟩)])]
+
+/-- non-vacuity: an insert into a list (the call that is built is in C09's scope), a move out of a container
+    into a list, `copy` without `from` (error, data unchanged), `add` of the node found at valueFrom `a[1]`,
+    a remove beyond the list (error), a path without leading '/' (error before patch.Do) -/
+theorem nonvacuous_patchOp_C09 :
+    (patchArgs Ptr.parseS id ⟨"add", "", "/a/1", some (.leaf ⟨"int", "9"⟩), none⟩ exPatchData).map
+        (fun c => (c.op, c.from_, c.path, c.value)) =
+      some ("add", none, ["a", "1"], some (.leaf ⟨"int", "9"⟩)) ∧
+    Patch.inScope (c09Obj ⟨"add", none, ["a", "1"], some (.leaf ⟨"int", "9"⟩)⟩) = true ∧
+    patchOpC09 id ⟨"add", "", "/a/1", some (.leaf ⟨"int", "9"⟩), none⟩ exPatchData =
+      ([("a", .list [.leaf ⟨"int", "1"⟩, .leaf ⟨"int", "9"⟩, .leaf ⟨"int", "2"⟩]),
+        ("b", .cont [("x", .leaf ⟨"int", "1"⟩)])], false) ∧
+    patchOpC09 id ⟨"move", "/b/x", "/a/0", none, none⟩ exPatchData =
+      ([("a", .list [.leaf ⟨"int", "1"⟩, .leaf ⟨"int", "1"⟩, .leaf ⟨"int", "2"⟩]), ("b", .cont [])], false) ∧
+    patchOpC09 id ⟨"copy", "", "/b/y", none, some "a[1]"⟩ exPatchData = (exPatchData, true) ∧
+    patchOpC09 id ⟨"add", "", "/b/y", none, some "a[1]"⟩ exPatchData =
+      ([("a", .list [.leaf ⟨"int", "1"⟩, .leaf ⟨"int", "2"⟩]),
+        ("b", .cont [("x", .leaf ⟨"int", "1"⟩), ("y", .leaf ⟨"int", "2"⟩)])], false) ∧
+    patchOpC09 id ⟨"remove", "", "/a/7", none, none⟩ exPatchData = (exPatchData, true) ∧
+    patchOpC09 id ⟨"remove", "", "a/0", none, none⟩ exPatchData = (exPatchData, true) := by
+  decide +kernel
+
+/-- … and the hypotheses of the transfer theorems hold for the first of these: the document is valid and
+    the operation object is in C09's domain -/
+theorem nonvacuous_patchOp_C09_hyps :
+    (Node.cont exPatchData).Valid ∧
+    Patch.OpOk (c09Obj ⟨"add", none, ["a", "1"], some (.leaf ⟨"int", "9"⟩)⟩) := by
+  refine ⟨?_, ⟨by decide, ?_⟩⟩
+  · have h0 : (Node.cont []).Valid := ⟨.cont .nil (by simp), .cont (by simp) (by simp)⟩
+    have ha : (Node.list [.leaf ⟨"int", "1"⟩, .leaf ⟨"int", "2"⟩]).Valid :=
+      Patch.valid_list (by simp [Node.Valid.leaf])
+    have hb := Patch.valid_insert h0 (Node.Valid.leaf ⟨"int", "1"⟩) (k := "x") (by decide)
+    have h1 := Patch.valid_insert h0 ha (k := "a") (by decide)
+    exact Patch.valid_insert h1 hb (k := "b") (by decide)
+  · intro v hv; cases hv; exact Node.Valid.leaf _
+
+/-! ### round 8, cross-property C12 / C14 ↔ C13: the interpreter executes THESE data operations
+
+  `Ytk.Pipeline.run` (YtkModel/Pipeline.lean — the interpreter of C12 and C14, which the harness compares
+  with whole pipeline executions) has its own transcription of SetOp.Do and TemplateOp.Do; the theorems of
+  this file are about `Ytk.PD` (YtkModel/PipelineData.lean — compared with single operations).  The two
+  transcriptions are the same functions, so every law above holds for the operations as they occur INSIDE a
+  pipeline run (in an action tree, a forEach body, a loop, a callable). -/
+
+/-- SetOp.Do inside the interpreter IS `setOp` of this file with the interpreter's merge for `mergeC` -/
+theorem interp_set_is_setOp (data : Option Node) (path : String) (s : Option String) (d : AMap Node) :
+    Pipeline.setOp data path s d =
+      match setOp Pipeline.mergeKvs d (data.map Pipeline.contOf) path s with
+      | .ok d' => .ok d'
+      | _ => .error (if data.isNone then .noData else .badStrategy) :=
+  Pipeline.setOp_eq_pd data path s d
+
+/-- TemplateOp.Do inside the interpreter IS `templateOp` of this file with the interpreter's renderer
+    (outside `parseAs: yaml`, which the interpreter model does not own) -/
+theorem interp_template_is_templateOp (yp : String → Option (Option YNode)) (t p : String) (tr : Bool)
+    (pa : Option String) (d : AMap Node) (hy : pa ≠ some "yaml") :
+    (Pipeline.templateOp t p tr pa d).1 =
+      (templateOp (fun x => Pipeline.render x d) (fun x => Pipeline.renderLenient x d) Pipeline.trim yp
+        ⟨t, p, pa, tr⟩ d).1 ∧
+    (Pipeline.templateOp t p tr pa d).2.isSome =
+      (templateOp (fun x => Pipeline.render x d) (fun x => Pipeline.renderLenient x d) Pipeline.trim yp
+        ⟨t, p, pa, tr⟩ d).2 :=
+  Pipeline.templateOp_eq_pd yp t p tr pa d hy
+
+/-- one `Execute(SetOp)` of the interpreter, any fuel ≥ 1: it succeeds exactly when `setOp` does, the data
+    afterwards is `setOp`'s document (the callable registry is untouched); otherwise the state is unchanged -/
+theorem interp_set_run (n : Nat) (data : Option Node) (path : String) (s : Option String) (st : Pipeline.St) :
+    (∀ d', setOp Pipeline.mergeKvs st.data (data.map Pipeline.contOf) path s = .ok d' →
+      (Pipeline.run (n + 1) (.op (.set data path s)) st).err = none ∧
+      (Pipeline.run (n + 1) (.op (.set data path s)) st).st.data = d' ∧
+      (Pipeline.run (n + 1) (.op (.set data path s)) st).st.defs = st.defs) ∧
+    ((∀ d', setOp Pipeline.mergeKvs st.data (data.map Pipeline.contOf) path s ≠ .ok d') →
+      (Pipeline.run (n + 1) (.op (.set data path s)) st).err ≠ none ∧
+      (Pipeline.run (n + 1) (.op (.set data path s)) st).st = st) := by
+  simp only [Pipeline.run, Pipeline.wrap, interp_set_is_setOp]
+  cases setOp Pipeline.mergeKvs st.data (data.map Pipeline.contOf) path s with
+  | ok d0 =>
+    refine ⟨fun d' h => ?_, fun h => absurd rfl (h d0)⟩
+    cases h
+    exact ⟨rfl, rfl, rfl⟩
+  | err =>
+    refine ⟨fun d' h => ?_, fun _ => ⟨?_, rfl⟩⟩
+    · cases h
+    · simp [Pipeline.Res.fail]
+  | panic =>
+    refine ⟨fun d' h => ?_, fun _ => ⟨?_, rfl⟩⟩
+    · cases h
+    · simp [Pipeline.Res.fail]
+
+/-- `set_frame` for the operation INSIDE a run: after a successful `Execute(SetOp)` of the interpreter (a
+    container payload, a non-empty target that fits the data of the moment) every path that is not under
+    the target and not on the way to it finds the same node as before — or is a freshly padded slot. -/
+theorem interp_set_frame (n : Nat) (payload : AMap Node) (path q : String) (s : Option String) (st : Pipeline.St)
+    (hp : path ≠ "") (hf : Fits st.data (splitPath path))
+    (h1 : ¬ pathSteps (splitPath path) <+: pathSteps (splitPath q))
+    (h2 : ¬ pathSteps (splitPath q) <+: pathSteps (splitPath path))
+    (hok : (Pipeline.run (n + 1) (.op (.set (some (.cont payload)) path s)) st).err = none) :
+    let d' := (Pipeline.run (n + 1) (.op (.set (some (.cont payload)) path s)) st).st.data
+    lookup d' q = lookup st.data q ∨ (lookup st.data q = none ∧ lookup d' q = some Node.null) := by
+  intro d'
+  have hr := interp_set_run n (some (.cont payload)) path s st
+  simp only [Option.map_some, Pipeline.contOf] at hr
+  cases hs : setOp Pipeline.mergeKvs st.data (some payload) path s with
+  | ok d0 =>
+    have hd : d' = d0 := (hr.1 d0 hs).2.1
+    rw [hd]
+    exact set_frame Pipeline.mergeKvs st.data payload path q s hp hf h1 h2 d0 hs
+  | err => exact absurd hok (hr.2 (fun d' h => by rw [hs] at h; cases h)).1
+  | panic => exact absurd hok (hr.2 (fun d' h => by rw [hs] at h; cases h)).1
+
+/-- non-vacuity: `set_frame`'s list-item instance (`nonvacuous_frame_idx`), executed by the interpreter -/
+theorem nonvacuous_interp_set_frame :
+    (Pipeline.run 1 (.op (.set (some (.cont exPayload)) "a.l[3].b" (some "replace"))) ⟨exList, []⟩).err = none ∧
+    lookup (Pipeline.run 1 (.op (.set (some (.cont exPayload)) "a.l[3].b" (some "replace"))) ⟨exList, []⟩).st.data
+      "a.l[1]" = some Node.null ∧
+    lookup (Pipeline.run 1 (.op (.set (some (.cont exPayload)) "a.l[3].b" (some "replace"))) ⟨exList, []⟩).st.data
+      "a.l[0]" = some (.leaf ⟨"int", "1"⟩) := by
+  decide +kernel
+
+/-! ### round 8, cross-property C13 ↔ C01: the codec contract of `import_export_roundtrip`, factored
+
+  `CodecRoundTrips enc dec norm` bundles two things: the TEXT codec (yaml.v3 / encoding/json: plain value
+  ⇄ bytes — external) and the DOM ⇄ plain-value conversion (`Serialize` = encoder ∘ AsMap,
+  `FromReader` = FromMap ∘ decoder — dom/codec.go, modelled and proved in C01).  Here the contract is asked
+  of the text codec alone, on plain values; the DOM half is C01's theorem `decode_encode`. -/
+
+/-- the text codec of one format on plain values: decoding what was encoded gives the value back up to
+    the codec's own normalisation `normV` (external; e.g. numbers) -/
+def TextCodecRoundTrips (encT : List (String × Val) → List Nat) (decT : List Nat → Option (List (String × Val)))
+    (normV : List (String × Val) → List (String × Val)) : Prop := ∀ m, decT (encT m) = some (normV m)
+
+/-- C01 gives the DOM half: the file decoder `FromMap ∘ decT` undoes the file encoder `encT ∘ AsMap` on
+    every VALID container, up to the text codec's normalisation carried through FromMap / AsMap -/
+theorem codecRoundTrips_of_text (encT : List (String × Val) → List Nat)
+    (decT : List Nat → Option (List (String × Val))) (normV : List (String × Val) → List (String × Val))
+    (ht : TextCodecRoundTrips encT decT normV) :
+    CodecRoundTrips (fun kvs => encT (asMap kvs)) (fun bs => (decT bs).map fromMap)
+      (fun kvs => fromMap (normV (asMap kvs))) := by
+  intro kvs
+  simp [ht (asMap kvs)]
+
+/-- FromMap ∘ AsMap is the identity on valid containers (C01 `decode_encode` at the root) -/
+theorem fromMap_asMap (kvs : AMap Node) (h : (Node.cont kvs).Valid) : fromMap (asMap kvs) = kvs := by
+  have := decode_encode_aux (.cont kvs) h
+  simp only [encodeNode, decodeNode, Node.cont.injEq] at this
+  exact this
+
+/-- Export ∘ Import is the IDENTITY on the subtree: a valid container exported as YAML (resp. JSON) and
+    imported at another path yields the very same subtree, when the text codec returns the plain value it
+    was given (`normV = id`: no number normalisation, e.g. string / bool / null leaves).  Only the text
+    codec is assumed; the DOM conversion is C01's theorem. -/
+theorem import_export_identity (r : String → Option String) (lenient : String → String) (cd : Codecs)
+    (encT : List (String × Val) → List Nat) (decT : List Nat → Option (List (String × Val)))
+    (ht : TextCodecRoundTrips encT decT id) (hcd : cd.yaml = fun bs => (decT bs).map fromMap)
+    (data sub : AMap Node) (p : ValOrRef) (q : String) (hv : (Node.cont sub).Valid)
+    (hsub : lookup data (p.resolve r data) = some (.cont sub)) (hq : lenient q ≠ "") :
+    exportOp r "yaml" (some p) true data = (false, true, some (.doc .yaml sub)) ∧
+    lookup (importOp cd lenient (some (encT (asMap sub))) "yaml" q data).1 (lenient q) = some (.cont sub) := by
+  have hc := codecRoundTrips_of_text encT decT id ht
+  rw [← hcd] at hc
+  have := import_export_roundtrip r lenient cd _ _ hc data sub p q hsub hq
+  simpa [fromMap_asMap sub hv] using this
+
+/-- non-vacuity: a text codec that is the identity on a one-entry "file system" (the bytes are a tag, the
+    decoder returns the stored value): the contract holds, `exData`'s container `a` is valid -/
+theorem nonvacuous_import_export_identity :
+    (Node.cont [("b", .leaf ⟨"int", "1"⟩), ("c", .cont [("d", .leaf ⟨"string", "x"⟩)])]).Valid ∧
+    lookup exData "a" = some (.cont [("b", .leaf ⟨"int", "1"⟩), ("c", .cont [("d", .leaf ⟨"string", "x"⟩)])]) ∧
+    fromMap (asMap [("b", .leaf ⟨"int", "1"⟩), ("c", .cont [("d", .leaf ⟨"string", "x"⟩)])]) =
+      [("b", .leaf ⟨"int", "1"⟩), ("c", .cont [("d", .leaf ⟨"string", "x"⟩)])] := by
+  refine ⟨Node.validB_sound _ (by decide +kernel), by decide +kernel, by decide +kernel⟩
+
+/-! ### round 8: the frame law of PatchOp (clause C13.7, the part that was open) -/
+
+/-- PatchOp changes only its target location.  For add / remove / replace / copy / test over C09's
+    interpreter (hypotheses of `patchOp_refines_C09`): if the (parsed, rendered) target pointer
+    `pre ++ t :: tail` and another pointer `pre ++ u :: qs` part at two different member names `t ≠ u` of
+    the object at `pre`, then what the other pointer resolves to (RFC 6901 evaluation `getTok`) is the same
+    before and after the operation — whether it succeeds or fails.  (Under an ARRAY parent, add / remove
+    shift the later elements by the RFC's own semantics; `move` touches two locations.  Neither is
+    claimed.)  From the frame law of the RFC 6902 reference, `Patch.rfc6902_frame_key`
+    (YtkProofs/GapPatchFrame.lean). -/
+theorem patch_frame (lenient : String → String) (ps : PatchSpec) (data : AMap Node)
+    (call : PatchCall Ptr.Path) (h : patchArgs Ptr.parseS lenient ps data = some call)
+    (ho : Patch.OpOk (c09Obj call)) (hd : (Node.cont data).Valid)
+    (hop : call.op = "add" ∨ call.op = "remove" ∨ call.op = "replace" ∨ call.op = "copy" ∨ call.op = "test")
+    (pre : Ptr.Path) (t u : String) (tail qs : Ptr.Path) (hp : call.path = pre ++ t :: tail) (htu : t ≠ u)
+    (hk : ∃ kvs, Ptr.getTok (.cont data) pre = some (.cont kvs)) :
+    Ptr.getTok (.cont (patchOpC09 lenient ps data).1) (pre ++ u :: qs) =
+      Ptr.getTok (.cont data) (pre ++ u :: qs) := by
+  rw [(patchOp_refines_C09 lenient ps data call h ho hd).2]
+  cases hr : Patch.rfc6902 (c09Obj call) (.cont data) with
+  | none => rfl
+  | some n =>
+    cases n with
+    | cont d' =>
+      exact Patch.rfc6902_frame_key (c09Obj call) (.cont data) (.cont d') pre t u tail qs hop
+        (by simp [c09Obj, hp]) htu hk hr
+    | leaf v => rfl
+    | list xs => rfl
+
+/-- non-vacuity on `exPatchData` = `{a: [1, 2], b: {x: 1}}`: `add /b/y 9` (target under the object `b`)
+    leaves `/b/x` and `/a/1` alone — the hypotheses hold with `pre = [b]`, `t = y`, `u = x` resp.
+    `pre = []`, `t = b`, `u = a` — and the new member is there -/
+theorem nonvacuous_patch_frame :
+    let ps : PatchSpec := ⟨"add", "", "/b/y", some (.leaf ⟨"int", "9"⟩), none⟩
+    (patchArgs Ptr.parseS id ps exPatchData).map (fun c => (c.op, c.from_, c.path, c.value)) =
+      some ("add", none, ["b", "y"], some (.leaf ⟨"int", "9"⟩)) ∧
+    Patch.OpOk (c09Obj ⟨"add", none, ["b", "y"], some (.leaf ⟨"int", "9"⟩)⟩) ∧
+    (∃ kvs, Ptr.getTok (.cont exPatchData) ["b"] = some (.cont kvs)) ∧
+    Ptr.getTok (.cont (patchOpC09 id ps exPatchData).1) ["b", "x"] = some (.leaf ⟨"int", "1"⟩) ∧
+    Ptr.getTok (.cont (patchOpC09 id ps exPatchData).1) ["a", "1"] = some (.leaf ⟨"int", "2"⟩) ∧
+    Ptr.getTok (.cont (patchOpC09 id ps exPatchData).1) ["b", "y"] = some (.leaf ⟨"int", "9"⟩) := by
+  intro ps
+  refine ⟨by decide +kernel, ⟨by decide, ?_⟩, ⟨_, rfl⟩, by decide +kernel, by decide +kernel, by decide +kernel⟩
+  intro v hv; cases hv; exact Node.Valid.leaf _
+
 end Ytk.C13
 
 /-! ## Translated functions (YtkModel/Generated/Funcs.lean, regenerated from the Go source on every
@@ -1328,5 +1795,672 @@ theorem nonEmpty_generated_eq_model (p : Option String) :
       · intro h1; have : s.length ≠ 0 := fun e => h1 (h.mp e)
         omega
     simp [Funcs.nonEmpty, Go.deref, this]
+
+end Ytk.C13
+
+/-! ## the template functions (pipeline/template_engine_funcs.go; model YtkModel/TplFuncs.lean) -/
+namespace Ytk.C13
+section tplfuncs
+open Ytk.TplFuncs
+
+/-- isEmpty by kind of value: true exactly for the untyped nil (a missing key), a stored nil and the empty
+    string — false for every other scalar (0, false, " " included), every list and every map, empty or not. -/
+theorem tf_isEmpty_by_kind (v : Option Val) :
+    TplFuncs.isEmpty v = true ↔
+      v = none ∨ ∃ s, v = some (.sc s) ∧ (s.ty = "nil" ∨ (s.ty = "string" ∧ s.text = "")) :=
+  isEmpty_iff v
+
+theorem nonvacuous_tf_isEmpty :
+    TplFuncs.isEmpty none = true ∧ TplFuncs.isEmpty (some Val.null) = true ∧
+    TplFuncs.isEmpty (some (.sc ⟨"string", ""⟩)) = true ∧ TplFuncs.isEmpty (some (.sc ⟨"string", " "⟩)) = false ∧
+    TplFuncs.isEmpty (some (.sc ⟨"int", "0"⟩)) = false ∧ TplFuncs.isEmpty (some (.sc ⟨"bool", "false"⟩)) = false ∧
+    TplFuncs.isEmpty (some (.arr [])) = false ∧ TplFuncs.isEmpty (some (.obj [])) = false := by decide
+
+/-- unflatten IS utils.Unflatten as modelled for C16, so C16's theorem applies: flattening the result of a
+    prefix-free flat map of scalars gives the flat map back. -/
+theorem tf_unflatten_c16 (kv : AMap Scalar) (hs : AMap.Sorted kv) (hpf : Props.PrefixFree kv)
+    (hne : Props.SegsNonempty kv) :
+    unflattenFn = Props.unflatten ∧ Props.flattenPlainMap (unflattenFn (Props.toV kv)) = kv :=
+  ⟨rfl, Props.flattenPlainMap_unflatten hs hpf hne⟩
+
+/-- mergeFiles of distinct files that all load = the LEFT FOLD of Merge with appended lists over the loaded
+    documents, in the order given (so C04's laws hold per step: a later file wins unless its value is null). -/
+theorem tf_mergeFiles_fold {Γ : Type} (fl : Files Γ) (fds : List (String × AMap Node))
+    (hnd : (fds.map (·.1)).Nodup) (hload : ∀ p ∈ fds, loadFile fl p.1 = .ok p.2) :
+    mergeFiles fl (fds.map (·.1)) = .ok ((fds.map (·.2)).foldl (mergeC .append) []) :=
+  mergeFiles_fold fl fds hnd hload
+
+/-- mergeFiles [f] is the parsed file; mergeFiles [] the empty document -/
+theorem tf_mergeFiles_single {Γ : Type} (fl : Files Γ) (f : String) (d : AMap Node) (h : loadFile fl f = .ok d) :
+    mergeFiles fl [f] = .ok d ∧ mergeFiles fl [] = .ok [] := by
+  have := mergeFiles_fold fl [(f, d)] (by simp) (by simpa using h)
+  refine ⟨?_, rfl⟩
+  rw [show [f] = [(f, d)].map (·.1) from rfl, this]
+  simp only [List.map_cons, List.map_nil, List.foldl_cons, List.foldl_nil]
+  exact congrArg _ (mergeKvs_nil_left .append (loadFile_valid fl f d h).1.sorted)
+
+/-- a file that cannot be opened or decoded makes the whole call fail (no partial result); an unrecognised suffix
+    on a readable file is the call of a nil decoder — a panic, which text/template reports as an error -/
+theorem tf_mergeFiles_first_failure {Γ : Type} (fl : Files Γ) (f : String) (rest : List String) :
+    (loadFile fl f = .err → mergeFiles fl (f :: rest) = .err) ∧
+    (loadFile fl f = .panic → mergeFiles fl (f :: rest) = .panic) ∧
+    (∀ c, fl.open_ f = some c → FileCodec.ofSuffix (fl.ext f) = none → loadFile fl f = .panic) := by
+  refine ⟨fun h => by simp [mergeFiles, addFiles, h], fun h => by simp [mergeFiles, addFiles, h], ?_⟩
+  intro c ho hs
+  simp [loadFile, ho, hs]
+
+/-- domdiff x x = [] (C07's `diff_self`), and anything but two containers gives the empty list -/
+theorem tf_domDiff_self (l : AMap Node) (hl : (Node.cont l).Valid) :
+    domDiff (some (.cont l)) (some (.cont l)) = [] := by
+  simp only [domDiff, diff, emit, emitNode_self _ "" hl]; rfl
+
+theorem tf_domDiff_spec (l r : Option Node) :
+    domDiff l r = match l, r with
+      | some (.cont a), some (.cont b) => diff a b
+      | _, _ => [] := by
+  unfold domDiff; split <;> simp_all
+
+theorem tf_domDiff_non_container (l r : Option Node)
+    (h : (∀ a, l ≠ some (.cont a)) ∨ (∀ b, r ≠ some (.cont b))) : domDiff l r = [] := by
+  unfold domDiff
+  split
+  · rename_i a b
+    rcases h with h | h
+    · exact absurd rfl (h a)
+    · exact absurd rfl (h b)
+  · rfl
+
+/-- dom2yaml / dom2json / dom2properties hand AsMap of the container to the format's encoder (C01's Serialize);
+    under the codec contract (the decoder inverts the encoder on every value) parsing the text gives the document back. -/
+theorem tf_dom2_parse_identity (e : Encoders) (dec : String → Option (List (String × Val)))
+    (c : AMap Node) (hv : (Node.cont c).Valid) :
+    dom2yaml e c = e.yaml (asMap c) ∧ dom2json e c = e.json (asMap c) ∧ dom2properties e c = e.props (asMap c) ∧
+    ((∀ v, (e.json v).2 = false ∧ dec (e.json v).1 = some v) →
+      (dom2json e c).2 = false ∧ (dec (dom2json e c).1).map fromMap = some c) ∧
+    ((∀ v, (e.yaml v).2 = false ∧ dec (e.yaml v).1 = some v) →
+      (dom2yaml e c).2 = false ∧ (dec (dom2yaml e c).1).map fromMap = some c) :=
+  ⟨rfl, rfl, rfl, fun h => dom2str_parse e.json dec h c hv, fun h => dom2str_parse e.yaml dec h c hv⟩
+
+/-- fileExists / isDir: every error of os.Stat means false; a directory exists -/
+theorem tf_stat_spec (os : OS) (f : String) :
+    (os.stat f = none → fileExists os f = false ∧ isDir os f = false) ∧
+    (∀ d, os.stat f = some d → fileExists os f = true ∧ isDir os f = d) ∧
+    (isDir os f = true → fileExists os f = true) := by
+  refine ⟨fun h => by simp [fileExists, isDir, h], fun d h => by simp [fileExists, isDir, h], ?_⟩
+  unfold isDir fileExists
+  cases os.stat f <;> simp
+
+/-- toYaml returns the encoder's text without its final newline, and the encoder's error -/
+theorem tf_toYaml_trim {α : Type} (enc : α → String × Bool) (v : α) (s : String) (e : Bool)
+    (h : enc v = (s ++ "\n", e)) : toYaml enc v = (s, e) := by
+  simp only [toYaml, h, trimSuffixNl, String.toList_append, List.reverse_append]
+  simp [String.ofList_toList]
+
+/-- TemplateOp over an action calling the functions: the action's text is stored as a string leaf at the path
+    (`template_stores_text` with the functions' renderer); an action that fails makes the operation fail. -/
+theorem tf_templateOp_stores {Γ : Type} (env : Env Γ) (c : Call) (tmpl path : String) (trimFn : String → String)
+    (yp : String → Option (Option PD.YNode)) (data : AMap Node) (text : String)
+    (ht : tmpl ≠ "") (hp : path ≠ "") (hr : render env (asMap data) c = some text) :
+    (templateOpCall env c tmpl path none false trimFn yp data).2 = false ∧
+    lookup (templateOpCall env c tmpl path none false trimFn yp data).1 path = some (.leaf ⟨"string", text⟩) := by
+  have := template_stores_text (fun _ => render env (asMap data) c) id trimFn yp ⟨tmpl, path, none, false⟩ data text
+    ht hp (Or.inl rfl) hr hp
+  simpa [templateOpCall] using this
+
+theorem tf_templateOp_fails {Γ : Type} (env : Env Γ) (c : Call) (tmpl path : String) (trimFn : String → String)
+    (yp : String → Option (Option PD.YNode)) (data : AMap Node)
+    (ht : tmpl ≠ "") (hp : path ≠ "") (hr : render env (asMap data) c = none) :
+    (templateOpCall env c tmpl path none false trimFn yp data).2 = true := by
+  simp [templateOpCall, PD.templateOp, ht, hp, hr]
+
+/-- the isEmpty action renders `true` / `false` by the kind table above -/
+theorem tf_render_isEmpty {Γ : Type} (env : Env Γ) (snap : AMap Val) (k : String) :
+    render env snap (.isEmpty k) = some (if TplFuncs.isEmpty (AMap.get? snap k) then "true" else "false") := rfl
+
+def exFiles : Files String :=
+  { ext := fun f => if f = "a.yaml" then ".yaml" else if f = "b.json" then ".json" else ".txt"
+    open_ := fun f => if f = "gone.yaml" then none else some f
+    decode := fun _ c =>
+      if c = "a.yaml" then some [("l", .arr [.sc ⟨"int", "1"⟩]), ("x", .sc ⟨"int", "1"⟩), ("y", .sc ⟨"string", "keep"⟩)]
+      else if c = "b.json" then some [("l", .arr [.sc ⟨"int", "2"⟩]), ("x", .sc ⟨"int", "2"⟩), ("y", Val.null)]
+      else none }
+
+/-- concrete: two files (lists appended, later scalar wins, null keeps the earlier value); a file named twice is
+    merged ONCE, at its first position (the document set keys documents by file name); failures -/
+theorem nonvacuous_tf_mergeFiles :
+    mergeFiles exFiles ["a.yaml", "b.json"] =
+      .ok [("l", .list [.leaf ⟨"int", "1"⟩, .leaf ⟨"int", "2"⟩]), ("x", .leaf ⟨"int", "2"⟩), ("y", .leaf ⟨"string", "keep"⟩)] ∧
+    mergeFiles exFiles ["a.yaml", "b.json", "a.yaml"] = mergeFiles exFiles ["a.yaml", "b.json"] ∧
+    mergeFiles exFiles ["a.yaml", "gone.yaml"] = .err ∧ mergeFiles exFiles ["a.yaml", "c.txt"] = .panic ∧
+    domDiff (some (.cont [("x", .leaf ⟨"int", "1"⟩)])) (some (.cont [("x", .leaf ⟨"int", "2"⟩)])) =
+      [Mod.mkChange "x" ⟨"int", "2"⟩ ⟨"int", "1"⟩] := by decide +kernel
+
+end tplfuncs
+end Ytk.C13
+
+/-! ## Operations with an environment: ExecOp, TemplateFileOp, Html2DomOp, ValOrRef decoding
+
+  Definitions: `YtkModel/OpsExt.lean` (namespace `Ytk.OpsExt`), the functions the driver op
+  `opsExt` executes.  The operating system (`ExecOS`: opening the output files, running the
+  process), the template engine (`TplEngine`), the file system (`TplFS`), the HTML library
+  (`HtmlLib`) and `RenderLenient` (`lenient`) are parameters: every theorem holds for ALL of them.
+  Each docstring names the Go operation the theorem is about. -/
+
+namespace Ytk.C13
+open Ytk.PD Ytk.OpsExt
+
+section opsExt
+
+/-! ### (*ExecOp).Do — pipeline/exec_op.go -/
+
+/-- ExecOp.Do — "SaveExitCodeTo: path within the global data where to set exit code": when the
+    output files open and the process ends with an exit error, what Lookup finds at the path
+    afterwards is the exit code as an int leaf — whether or not that code is valid (the code is
+    stored BEFORE the validity check). -/
+theorem exec_stores_exit_code (lenient : String → String) (os : ExecOS) (e : ExecSpec) (data : AMap Node)
+    (p : String) (code : Int) (out err : List Nat) (ho : execOpens lenient os e)
+    (hr : execCall lenient os e = .exitError code out err) (hs : e.saveExitCodeTo = some p) (hp : p ≠ "") :
+    (execOp lenient os e data).data = addValueAt data p (exitCodeLeaf code) ∧
+      lookup (execOp lenient os e data).data p = some (.leaf ⟨"int", toString code⟩) ∧
+      (execOp lenient os e data).ran = true := by
+  have hd : (execOp lenient os e data).data = addValueAt data p (exitCodeLeaf code) := by
+    rw [execOp_of_opens lenient os e data ho, hr]
+    simp only [hs]
+  refine ⟨hd, ?_, ?_⟩
+  · rw [hd]; exact lookup_addValueAt_self' _ _ hp
+  · rw [execOp_of_opens lenient os e data ho, hr]
+
+/-- ExecOp.Do — "ValidExitCodes: list of exit codes that are assumed to be valid": an exit error
+    is an error of the operation exactly when its code is not in the list; a nil list is the
+    empty list (no non-zero exit code is valid). -/
+theorem exec_exit_code_validity (lenient : String → String) (os : ExecOS) (e : ExecSpec) (data : AMap Node)
+    (code : Int) (out err : List Nat) (ho : execOpens lenient os e)
+    (hr : execCall lenient os e = .exitError code out err) :
+    (execOp lenient os e data).err = !((e.validExitCodes.getD []).contains code) := by
+  rw [execOp_of_opens lenient os e data ho, hr]
+
+/-- ExecOp.Do: an exit code outside a non-empty valid list is an error (and still stored, see
+    `exec_stores_exit_code`). -/
+theorem exec_invalid_exit_code_is_error (lenient : String → String) (os : ExecOS) (e : ExecSpec) (data : AMap Node)
+    (valid : List Int) (code : Int) (out err : List Nat) (ho : execOpens lenient os e)
+    (hv : e.validExitCodes = some valid) (hn : code ∉ valid)
+    (hr : execCall lenient os e = .exitError code out err) :
+    (execOp lenient os e data).err = true := by
+  rw [exec_exit_code_validity lenient os e data code out err ho hr, hv]
+  simp [hn]
+
+/-- ExecOp.Do: nil and empty ValidExitCodes are the same operation. -/
+theorem exec_nil_valid_is_empty (lenient : String → String) (os : ExecOS) (e : ExecSpec) (data : AMap Node) :
+    execOp lenient os { e with validExitCodes := none } data =
+      execOp lenient os { e with validExitCodes := some [] } data := rfl
+
+/-- ExecOp.Do: a process that exits with status 0 is never an error, whatever ValidExitCodes
+    holds, and its exit code is NOT stored: the data is untouched. -/
+theorem exec_status_zero (lenient : String → String) (os : ExecOS) (e : ExecSpec) (data : AMap Node)
+    (out err : List Nat) (ho : execOpens lenient os e) (hr : execCall lenient os e = .success out err) :
+    (execOp lenient os e data).err = false ∧ (execOp lenient os e data).data = data ∧
+      (execOp lenient os e data).files = execFiles (e.stdout.map lenient) (e.stderr.map lenient) out err := by
+  rw [execOp_of_opens lenient os e data ho, hr]
+  exact ⟨rfl, rfl, rfl⟩
+
+/-- ExecOp.Do: a program that cannot be started is an error; the data is untouched and the
+    output files stay behind empty. -/
+theorem exec_start_failure (lenient : String → String) (os : ExecOS) (e : ExecSpec) (data : AMap Node)
+    (ho : execOpens lenient os e) (hr : execCall lenient os e = .startFail) :
+    (execOp lenient os e data).err = true ∧ (execOp lenient os e data).data = data ∧
+      (execOp lenient os e data).ran = false ∧
+      ∀ f ∈ (execOp lenient os e data).files, f.2 = [] := by
+  rw [execOp_of_opens lenient os e data ho, hr]
+  refine ⟨rfl, rfl, rfl, ?_⟩
+  intro f hf
+  simp only [execFiles, List.mem_append, List.mem_map] at hf
+  rcases hf with ⟨_, _, rfl⟩ | ⟨_, _, rfl⟩ <;> rfl
+
+/-- ExecOp.Do: an output file that cannot be opened is an ERROR (not a panic): the process is
+    not run, nothing is logged, the data is untouched. -/
+theorem exec_open_failure (lenient : String → String) (os : ExecOS) (e : ExecSpec) (data : AMap Node)
+    (h : (∃ p, e.stdout = some p ∧ os.canOpen (lenient p) = false) ∨
+         (∃ p, e.stderr = some p ∧ os.canOpen (lenient p) = false)) :
+    (execOp lenient os e data).err = true ∧ (execOp lenient os e data).data = data ∧
+      (execOp lenient os e data).ran = false ∧ (execOp lenient os e data).log = [] :=
+  execOp_of_not_opens lenient os e data h
+
+/-- ExecOp.Do: the files hold what the process wrote, stdout's first. -/
+theorem exec_files_hold_output (lenient : String → String) (os : ExecOS) (e : ExecSpec) (data : AMap Node)
+    (code : Int) (out err : List Nat) (ho : execOpens lenient os e)
+    (hr : execCall lenient os e = .exitError code out err) :
+    (execOp lenient os e data).files =
+      (e.stdout.toList.map fun p => (lenient p, out)) ++ (e.stderr.toList.map fun p => (lenient p, err)) := by
+  rw [execOp_of_opens lenient os e data ho, hr]
+  simp only [execFiles]
+  cases e.stdout <;> cases e.stderr <;> rfl
+
+/-- ExecOp.Do: an unset SaveExitCodeTo leaves the data unchanged — for every operating system
+    and every outcome. -/
+theorem exec_unset_save_unchanged (lenient : String → String) (os : ExecOS) (e : ExecSpec) (data : AMap Node)
+    (hs : e.saveExitCodeTo = none) : (execOp lenient os e data).data = data := by
+  rcases execOp_data lenient os e data with h | ⟨p, _, hp, _⟩
+  · exact h
+  · rw [hs] at hp; cases hp
+
+/-- ExecOp.Do, frame at full strength: for every operating system and every outcome, the data
+    afterwards differs from the data before at most at SaveExitCodeTo — every path that is not
+    under it and not on the way to it finds the same node (or a freshly padded `null` slot). -/
+theorem exec_frame (lenient : String → String) (os : ExecOS) (e : ExecSpec) (data : AMap Node) (p q : String)
+    (hs : e.saveExitCodeTo = some p) (hf : Fits data (splitPath p))
+    (h1 : ¬ pathSteps (splitPath p) <+: pathSteps (splitPath q))
+    (h2 : ¬ pathSteps (splitPath q) <+: pathSteps (splitPath p)) :
+    FrameAt data (execOp lenient os e data).data q := by
+  rcases execOp_data lenient os e data with h | ⟨p', code, hp, h⟩
+  · rw [h]; exact FrameAt.refl _ _
+  · rw [hs] at hp; cases hp
+    rw [h]; exact frameAt_addValueAt_steps data _ q _ hf h1 h2
+
+/-- ExecOp.Do, frame without `Fits`, for paths that part at two different keys or indices. -/
+theorem exec_frame_diverge (lenient : String → String) (os : ExecOS) (e : ExecSpec) (data : AMap Node)
+    (p q : String) (hs : e.saveExitCodeTo = some p) (h : DivergeIdx (splitPath p) (splitPath q)) :
+    FrameAt data (execOp lenient os e data).data q := by
+  rcases execOp_data lenient os e data with h' | ⟨p', code, hp, h'⟩
+  · rw [h']; exact FrameAt.refl _ _
+  · rw [hs] at hp; cases hp
+    rw [h']; exact frameAt_addValueAt_diverge data _ q _ h
+
+/-- non-vacuity (ExecOp.Do): `sh -c "exit 3"` with ValidExitCodes [3], stdout into a file and
+    SaveExitCodeTo `res.rc` on `{a: 1}` — no error, the code is stored, `a` is untouched; with
+    ValidExitCodes [4] the same run is an error and the code is stored all the same; exit status 0
+    stores nothing. -/
+theorem nonvacuous_exec :
+    let os3 : ExecOS := ⟨fun _ => true, fun _ _ _ => .exitError 3 [111] []⟩
+    let os0 : ExecOS := ⟨fun _ => true, fun _ _ _ => .success [111] []⟩
+    let e : ExecSpec := ⟨"sh", some ["-c", "exit 3"], "", some [3], some "/t/out", none, some "res.rc"⟩
+    let data : AMap Node := [("a", .leaf ⟨"int", "1"⟩)]
+    (execOp id os3 e data).err = false ∧
+    lookup (execOp id os3 e data).data "res.rc" = some (.leaf ⟨"int", "3"⟩) ∧
+    lookup (execOp id os3 e data).data "a" = some (.leaf ⟨"int", "1"⟩) ∧
+    (execOp id os3 e data).files = [("/t/out", [111])] ∧
+    (execOp id os3 e data).log = [["prog=sh,dir=,args=[-c exit 3]"]] ∧
+    (execOp id os3 { e with validExitCodes := some [4] } data).err = true ∧
+    lookup (execOp id os3 { e with validExitCodes := some [4] } data).data "res.rc" = some (.leaf ⟨"int", "3"⟩) ∧
+    (execOp id os0 e data).data = data ∧ (execOp id os0 e data).err = false := by
+  decide
+
+/-! ### (*TemplateFileOp).Do — pipeline/template_file_op.go -/
+
+/-- TemplateFileOp.Do never changes the data document — for every engine, file system and
+    configuration. -/
+theorem templateFile_data_unchanged (te : TplEngine) (fs : TplFS) (t : TemplateFileSpec) (data : AMap Node) :
+    (templateFileOp te fs t data).data = data := templateFileOp_data te fs t data
+
+/-- TemplateFileOp.Do — "Output is path to output file": success means exactly that the scope
+    (the root, or the container at Path) exists, the template file was read, its content rendered
+    against the scope, and the file named by the rendered Output holds that rendering. -/
+theorem templateFile_written_is_rendering (te : TplEngine) (fs : TplFS) (t : TemplateFileSpec) (data : AMap Node) :
+    (templateFileOp te fs t data).err = false ↔
+      t.file ≠ "" ∧ t.output ≠ "" ∧ ∃ sc tmpl val, tplScope t data = some sc ∧
+        fs.readFile (te.lenient sc t.file) = some tmpl ∧ te.render sc tmpl = some val ∧
+        fs.canWrite (te.lenient sc t.output) = true ∧
+        (templateFileOp te fs t data).written = some (te.lenient sc t.output, val) := by
+  by_cases hf : t.file = ""
+  · simp [templateFileOp, hf]
+  by_cases ho : t.output = ""
+  · simp [templateFileOp, hf, ho]
+  rw [templateFileOp_eq te fs t data hf ho]
+  cases hsc : tplScope t data with
+  | none => simp [hf, ho]
+  | some sc =>
+    cases hr : fs.readFile (te.lenient sc t.file) with
+    | none => simp [hf, ho, hr]
+    | some tmpl =>
+      cases hv : te.render sc tmpl with
+      | none => simp [hf, ho, hr, hv]
+      | some val =>
+        by_cases hw : fs.canWrite (te.lenient sc t.output) = true
+        · simp [hf, ho, hr, hv, hw]
+        · simp [hf, ho, hr, hv, hw]
+
+/-- TemplateFileOp.Do: an error writes nothing (in particular a template that fails to render
+    returns before the output file is touched), success writes exactly one file. -/
+theorem templateFile_err_iff_nothing_written (te : TplEngine) (fs : TplFS) (t : TemplateFileSpec) (data : AMap Node) :
+    (templateFileOp te fs t data).err = (templateFileOp te fs t data).written.isNone := by
+  simp only [templateFileOp]
+  split
+  · rfl
+  · split
+    · rfl
+    · split
+      · rfl
+      · split
+        · rfl
+        · split
+          · rfl
+          · split <;> rfl
+
+/-- TemplateFileOp.Do: a template that fails to render is an error and nothing is written. -/
+theorem templateFile_render_error (te : TplEngine) (fs : TplFS) (t : TemplateFileSpec) (data sc : AMap Node)
+    (tmpl : String) (hf : t.file ≠ "") (ho : t.output ≠ "") (hsc : tplScope t data = some sc)
+    (hr : fs.readFile (te.lenient sc t.file) = some tmpl) (hv : te.render sc tmpl = none) :
+    (templateFileOp te fs t data).err = true ∧ (templateFileOp te fs t data).written = none := by
+  rw [templateFileOp_eq te fs t data hf ho, hsc]
+  simp [hr, hv]
+
+/-- TemplateFileOp.Do — "Path … (must be container). When omitted, then root of global data is
+    assumed": the scope is the root without a Path, the container found at Path otherwise, and
+    anything else there (nothing, a leaf, a list) is an error before any file is touched. -/
+theorem templateFile_scope (te : TplEngine) (fs : TplFS) (t : TemplateFileSpec) (data : AMap Node) :
+    (t.path = none → tplScope t data = some data) ∧
+    (∀ p c, t.path = some p → lookup data p = some (.cont c) → tplScope t data = some c) ∧
+    (tplScope t data = none →
+      (templateFileOp te fs t data).err = true ∧ (templateFileOp te fs t data).log = []) := by
+  refine ⟨?_, ?_, ?_⟩
+  · intro h; simp [tplScope, h]
+  · intro p c h hl; simp [tplScope, h, hl]
+  · intro h
+    by_cases hf : t.file = ""
+    · simp [templateFileOp, hf]
+    by_cases ho : t.output = ""
+    · simp [templateFileOp, hf, ho]
+    rw [templateFileOp_eq te fs t data hf ho, h]
+    exact ⟨rfl, rfl⟩
+
+/-- TemplateFileOp.Do: an empty File or Output is an error; nothing is read, written or logged. -/
+theorem templateFile_arg_errors (te : TplEngine) (fs : TplFS) (t : TemplateFileSpec) (data : AMap Node)
+    (h : t.file = "" ∨ t.output = "") :
+    templateFileOp te fs t data = ⟨true, data, none, []⟩ := by
+  rcases h with h | h
+  · simp [templateFileOp, h]
+  · by_cases hf : t.file = ""
+    · simp [templateFileOp, hf]
+    · simp [templateFileOp, hf, h]
+
+/-- non-vacuity (TemplateFileOp.Do): the template file `/t/in` holds `T`, the engine renders `T`
+    against the container at `sub` to `R`; the output `/t/out` then holds `R` and the data is as
+    before; the same operation with a Path to a leaf is an error. -/
+theorem nonvacuous_templateFile :
+    let data : AMap Node := [("sub", .cont [("x", .leaf ⟨"int", "1"⟩)]), ("z", .leaf ⟨"string", "s"⟩)]
+    let te : TplEngine := ⟨fun sc s => if sc = [("x", .leaf ⟨"int", "1"⟩)] ∧ s = "T" then some "R" else none, fun _ s => s⟩
+    let fs : TplFS := ⟨fun f => if f = "/t/in" then some "T" else none, fun _ => true⟩
+    (templateFileOp te fs ⟨"/t/in", "/t/out", some "sub"⟩ data).err = false ∧
+    (templateFileOp te fs ⟨"/t/in", "/t/out", some "sub"⟩ data).data = data ∧
+    (templateFileOp te fs ⟨"/t/in", "/t/out", some "sub"⟩ data).written = some ("/t/out", "R") ∧
+    (templateFileOp te fs ⟨"/t/in", "/t/out", some "sub"⟩ data).log =
+      [["reading template file", "/t/in"], ["writing rendered template", "/t/out"]] ∧
+    (templateFileOp te fs ⟨"/t/in", "/t/out", some "z"⟩ data).err = true ∧
+    (templateFileOp te fs ⟨"/t/in", "/t/out", none⟩ data).written = none := by
+  decide
+
+/-! ### convertHtmlNode2Dom and (*Html2DomOp).Do — pipeline/html2dom.go -/
+
+/-- convertHtmlNode2Dom: only element and text nodes do anything — a document node (what
+    `htmlquery.Parse` returns), comments, doctypes and blank text leave the container as it is. -/
+theorem html_ignored_nodes (cb : AMap Node) (cs : List HtmlNode) (d : String) (hb : isBlank d = true) :
+    convert cb (.document cs) = cb ∧ convert cb .other = cb ∧ convert cb (.text d) = cb := by
+  refine ⟨by simp [convert], by simp [convert], ?_⟩
+  simp [convert, hb]
+
+/-- convertHtmlNode2Dom — "Value leaf for every text node": a text node that is not blank is
+    stored under `Value` UNTRIMMED (the trimmed text only decides whether it is stored). -/
+theorem html_text_stored_untrimmed (cb : AMap Node) (d : String) (hb : isBlank d = false) :
+    AMap.get? (convert cb (.text d)) "Value" = some (.leaf ⟨"string", d⟩) := by
+  rw [convert_text]; simp [hb, AMap.get?_insert_self]
+
+/-- convertHtmlNode2Dom: with several text nodes below one element, `Value` is the LAST one that
+    is not blank (each overwrites the one before). -/
+theorem html_value_is_last_text (attrs : List (String × String)) (cs : List HtmlNode)
+    (hp : PlainKids cs) (hn : NoKidNamed "Value" cs) :
+    AMap.get? (elemBody attrs cs) "Value" = (lastText cs).map fun d => .leaf ⟨"string", d⟩ := by
+  unfold elemBody
+  rw [get?_convertChildren_Value cs _ hp hn]
+  cases lastText cs with
+  | some d => rfl
+  | none =>
+    cases attrs with
+    | nil => rfl
+    | cons a as =>
+      simp only [elemStart, add_of_noSuffix _ _ noSuffix_Attrs, Option.map_none]
+      rw [AMap.get?_insert_ne _ _ (by decide)]
+      rfl
+
+/-- convertHtmlNode2Dom — "Child elements are collected into the list, if their name appears
+    multiple times within the parent, otherwise they are regular child node": under a name `t`
+    the element finds nothing when no child element is named `t`, the child's own container when
+    there is exactly one, and otherwise a list with ONE ITEM PER CHILD ELEMENT named `t`, IN
+    DOCUMENT ORDER (`bodiesOf`: the containers built for those children, recursively). -/
+theorem html_children_by_name (attrs : List (String × String)) (cs : List HtmlNode) (t : String)
+    (hp : PlainKids cs) (ht : t ≠ "Value") (ha : t ≠ "Attrs") :
+    AMap.get? (elemBody attrs cs) t =
+      match bodiesOf t cs with
+      | [] => none
+      | [b] => some b
+      | b1 :: b2 :: rest => some (.list (b1 :: b2 :: rest)) := by
+  unfold elemBody
+  rw [get?_convertChildren t ht cs _ hp]
+  have hstart : AMap.get? (elemStart attrs) t = none := by
+    cases attrs with
+    | nil => rfl
+    | cons a as =>
+      simp only [elemStart, add_of_noSuffix _ _ noSuffix_Attrs]
+      rw [AMap.get?_insert_ne _ _ ha]
+      rfl
+  rw [hstart]
+  exact collect_none _ (bodiesOf_cont t cs)
+
+/-- convertHtmlNode2Dom: the list under a repeated name has as many items as there are child
+    elements of that name. -/
+theorem html_one_item_per_child (attrs : List (String × String)) (cs : List HtmlNode) (t : String)
+    (hp : PlainKids cs) (ht : t ≠ "Value") (ha : t ≠ "Attrs") (h2 : 2 ≤ (bodiesOf t cs).length) :
+    AMap.get? (elemBody attrs cs) t = some (.list (bodiesOf t cs)) := by
+  rw [html_children_by_name attrs cs t hp ht ha]
+  match hb : bodiesOf t cs, h2 with
+  | b1 :: b2 :: rest, _ => rfl
+
+/-- convertHtmlNode2Dom — "Attributes of element are put into container node Attrs": the
+    element's container holds `Attrs` exactly when it has attributes, and `Attrs` read by name
+    gives the value of the last attribute of that name as a string leaf (nothing for other names). -/
+theorem html_attrs_preserved (attrs : List (String × String)) (cs : List HtmlNode)
+    (hp : PlainKids cs) (hn : NoKidNamed "Attrs" cs) (hk : ∀ p ∈ attrs, hasIdxSuffix p.1 = false) :
+    AMap.get? (elemBody attrs cs) "Attrs" =
+      (if attrs = [] then none else some (.cont (attrsCont [] attrs))) ∧
+    ∀ k, AMap.get? (attrsCont [] attrs) k = (lastAttr k attrs).map fun v => .leaf ⟨"string", v⟩ := by
+  constructor
+  · unfold elemBody
+    rw [get?_convertChildren "Attrs" (by decide) cs _ hp, bodiesOf_nil_of_noKid "Attrs" cs hn]
+    cases attrs with
+    | nil => rfl
+    | cons a as =>
+      simp only [collect, elemStart, add_of_noSuffix _ _ noSuffix_Attrs, AMap.get?_insert_self]
+      simp
+  · intro k
+    rw [get?_attrsCont k attrs [] hk]
+    cases lastAttr k attrs <;> rfl
+
+/-- convertHtmlNode2Dom: with distinct attribute names every attribute is found with its value,
+    and no other name is. -/
+theorem html_attrs_distinct (attrs : List (String × String))
+    (hk : ∀ p ∈ attrs, hasIdxSuffix p.1 = false) (hd : (attrs.map (·.1)).Nodup) :
+    (∀ k v, (k, v) ∈ attrs → AMap.get? (attrsCont [] attrs) k = some (.leaf ⟨"string", v⟩)) ∧
+    (∀ k, k ∉ attrs.map (·.1) → AMap.get? (attrsCont [] attrs) k = none) := by
+  constructor
+  · intro k v hm
+    rw [get?_attrsCont k attrs [] hk, lastAttr_of_mem_nodup attrs hd hm]
+  · intro k hm
+    rw [get?_attrsCont k attrs [] hk, lastAttr_none_of_not_mem attrs hm]
+    rfl
+
+/-- convertHtmlNode2Dom: whatever the tree (tags and attribute names with index groups
+    included), every container it builds is constructible through the API: keys sorted and
+    unique, none ending in an index group. -/
+theorem html_convert_valid (n : HtmlNode) (cb : AMap Node) (h : (Node.cont cb).Valid) :
+    (Node.cont (convert cb n)).Valid := convert_valid n cb h
+
+/-- Html2DomOp.Do: success is ONE AddValueAt, at the rendered To, of a container converted from
+    an HTML node; From and To were non-empty. -/
+theorem html2dom_ok_addValueAt (lenient : String → String) (lib : HtmlLib) (x : Html2DomSpec) (data d : AMap Node)
+    (h : html2domOp lenient lib x data = .ok d) :
+    lenient x.from_ ≠ "" ∧ lenient x.to ≠ "" ∧
+      ∃ n, d = addValueAt data (lenient x.to) (.cont (convert [] n)) ∧
+        lookup d (lenient x.to) = some (.cont (convert [] n)) := by
+  obtain ⟨hf, ht, n, hd⟩ := html2domOp_ok lenient lib x data d h
+  exact ⟨hf, ht, n, hd, by rw [hd]; exact lookup_addValueAt_self' _ _ ht⟩
+
+/-- Html2DomOp.Do, frame: every path not under the rendered To and not on the way to it finds
+    the same node afterwards (or a freshly padded `null` slot). -/
+theorem html2dom_frame (lenient : String → String) (lib : HtmlLib) (x : Html2DomSpec) (data d : AMap Node)
+    (q : String) (h : html2domOp lenient lib x data = .ok d) (hf : Fits data (splitPath (lenient x.to)))
+    (h1 : ¬ pathSteps (splitPath (lenient x.to)) <+: pathSteps (splitPath q))
+    (h2 : ¬ pathSteps (splitPath q) <+: pathSteps (splitPath (lenient x.to))) :
+    FrameAt data d q := by
+  obtain ⟨_, _, n, hd⟩ := html2domOp_ok lenient lib x data d h
+  rw [hd]; exact frameAt_addValueAt_steps data _ q _ hf h1 h2
+
+theorem html2dom_frame_diverge (lenient : String → String) (lib : HtmlLib) (x : Html2DomSpec) (data d : AMap Node)
+    (q : String) (h : html2domOp lenient lib x data = .ok d)
+    (hdv : DivergeIdx (splitPath (lenient x.to)) (splitPath q)) : FrameAt data d q := by
+  obtain ⟨_, _, n, hd⟩ := html2domOp_ok lenient lib x data d h
+  rw [hd]; exact frameAt_addValueAt_diverge data _ q _ hdv
+
+/-- Html2DomOp.Do as the code is: WITHOUT a Query the node handed to the layout function is the
+    document node `htmlquery.Parse` returns, for which convertHtmlNode2Dom does nothing — an EMPTY
+    container is stored at To, whatever the HTML source is.  (The field documentation says "when
+    omitted, then whole document is used".) -/
+theorem html2dom_without_query_stores_empty (lenient : String → String) (lib : HtmlLib) (x : Html2DomSpec)
+    (data d : AMap Node) (hq : x.query = none) (hdoc : ∀ s, ∃ cs, lib.parse s = .document cs)
+    (h : html2domOp lenient lib x data = .ok d) :
+    d = addValueAt data (lenient x.to) (.cont []) := by
+  simp only [html2domOp, hq] at h
+  split at h
+  · cases h
+  · split at h
+    · cases h
+    · split at h
+      · rename_i v _
+        split at h
+        · cases h
+        · split at h
+          · cases h
+          · obtain ⟨cs, hcs⟩ := hdoc v.text
+            simp only [hcs, convert] at h
+            cases h
+            rfl
+      · cases h
+
+/-- Html2DomOp.Do: argument errors — an empty (rendered) From or To, nothing or a non-leaf at
+    From, an unknown layout — are errors; a leaf at From that does not hold a string is a PANIC
+    (`Value().(string)`). -/
+theorem html2dom_argument_outcomes (lenient : String → String) (lib : HtmlLib) (x : Html2DomSpec) (data : AMap Node) :
+    (lenient x.from_ = "" ∨ lenient x.to = "" → html2domOp lenient lib x data = .err) ∧
+    (lenient x.from_ ≠ "" → lenient x.to ≠ "" →
+      (∀ v, lookup data (lenient x.from_) = some (.leaf v) → v.ty ≠ "string" →
+        html2domOp lenient lib x data = .panic) ∧
+      ((∀ v, lookup data (lenient x.from_) ≠ some (.leaf v)) → html2domOp lenient lib x data = .err) ∧
+      (∀ v l, lookup data (lenient x.from_) = some (.leaf v) → v.ty = "string" → x.layout = some l →
+        l ≠ "default" → html2domOp lenient lib x data = .err)) := by
+  refine ⟨?_, ?_⟩
+  · rintro (h | h)
+    · simp [html2domOp, h]
+    · by_cases hf : lenient x.from_ = ""
+      · simp [html2domOp, hf]
+      · simp [html2domOp, hf, h]
+  · intro hf ht
+    refine ⟨?_, ?_, ?_⟩
+    · intro v hl hty
+      simp [html2domOp, hf, ht, hl, hty]
+    · intro hno
+      simp only [html2domOp, if_neg hf, if_neg ht]
+    · intro v l hl hty hlay hne
+      simp [html2domOp, hf, ht, hl, hty, hlay, hne]
+
+/-- non-vacuity (convertHtmlNode2Dom): `<div id="x">hi<p>a</p><!-- c --><p class="k"> </p><b>t</b> bye </div>`
+    gives Attrs {id: x}, Value " bye " (the last text, untrimmed), `p` a list of two containers in
+    document order, `b` a regular child. -/
+theorem nonvacuous_html :
+    convert [] (.elem "div" [("id", "x")]
+      [.text "hi", .elem "p" [] [.text "a"], .other, .elem "p" [("class", "k")] [.text " "],
+       .elem "b" [] [.text "t"], .text " bye "]) =
+    [("div", .cont [
+      ("Attrs", .cont [("id", .leaf ⟨"string", "x"⟩)]),
+      ("Value", .leaf ⟨"string", " bye "⟩),
+      ("b", .cont [("Value", .leaf ⟨"string", "t"⟩)]),
+      ("p", .list [.cont [("Value", .leaf ⟨"string", "a"⟩)],
+                   .cont [("Attrs", .cont [("class", .leaf ⟨"string", "k"⟩)])]])])] := by
+  decide
+
+/-- the names the layout writes are the package constants of pipeline/html2dom.go (regenerated
+    from the source on every run) -/
+theorem html_constants_match_source :
+    Generated.consts.lookup "pipeline.AttributeNode" = some "Attrs" ∧
+    Generated.consts.lookup "pipeline.ValueNode" = some "Value" ∧
+    Generated.consts.lookup "pipeline.Html2DomLayoutDefault" = some "default" := by
+  decide
+
+/-! ### (*ValOrRef).UnmarshalYAML, (*AnyVal).UnmarshalYAML — pipeline/types.go -/
+
+/-- ValOrRef.UnmarshalYAML on a fresh value: the result is exactly one of the two — a reference
+    (from a mapping whose `ref` is a string; no value) or an immediate value (from a scalar: its
+    text; no reference). -/
+theorem valOrRef_decodes_to_exactly_one (y : YIn) (v : ValOrRef) (h : vorUnmarshal vorZero y = .ok v) :
+    (v.isRef = true ∧ v.val = "" ∧ y = .mapping (.str v.ref)) ∨
+    (v.isRef = false ∧ v.ref = "" ∧ y = .scalar v.val) := by
+  cases y with
+  | scalar t => simp only [vorUnmarshal] at h; cases h; exact Or.inr ⟨rfl, rfl, rfl⟩
+  | mapping r =>
+    cases r with
+    | absent => cases h
+    | str s => simp only [vorUnmarshal] at h; cases h; exact Or.inl ⟨rfl, rfl, rfl⟩
+    | nonString => cases h
+  | otherKind => cases h
+
+/-- ValOrRef.UnmarshalYAML, outcome by node kind: a mapping without `ref`, a sequence or any
+    other kind is an error; a mapping whose `ref` is not a string PANICS (`x.(string)`); a scalar
+    and a mapping with a string `ref` succeed — whatever state the receiver is in. -/
+theorem valOrRef_outcomes (pv : ValOrRef) :
+    vorUnmarshal pv (.mapping .absent) = .err ∧ vorUnmarshal pv .otherKind = .err ∧
+    vorUnmarshal pv (.mapping .nonString) = .panic ∧
+    (∀ s, vorUnmarshal pv (.mapping (.str s)) = .ok ⟨true, s, pv.val⟩) ∧
+    (∀ t, vorUnmarshal pv (.scalar t) = .ok ⟨pv.isRef, pv.ref, t⟩) :=
+  ⟨rfl, rfl, rfl, fun _ => rfl, fun _ => rfl⟩
+
+/-- ValOrRef.UnmarshalYAML on a used receiver: once a reference, always a reference (a scalar
+    decoded afterwards sets Val and leaves isRef and Ref alone). -/
+theorem valOrRef_reference_is_sticky (pv v : ValOrRef) (y : YIn) (h : vorUnmarshal pv y = .ok v)
+    (hr : pv.isRef = true) : v.isRef = true := by
+  cases y with
+  | scalar t => simp only [vorUnmarshal] at h; cases h; exact hr
+  | mapping r =>
+    cases r with
+    | absent => cases h
+    | str s => simp only [vorUnmarshal] at h; cases h; rfl
+    | nonString => cases h
+  | otherKind => cases h
+
+/-- ValOrRef has no MarshalYAML; what yaml.v3 writes through reflection (the exported fields
+    `ref` and `val`) decodes back to the same value exactly for references without a value: an
+    immediate value comes back as a reference to its (empty) Ref. -/
+theorem valOrRef_default_marshal_roundtrip_iff (v : ValOrRef) :
+    vorUnmarshal vorZero (vorMarshalDefault v) = .ok v ↔ v.isRef = true ∧ v.val = "" := by
+  obtain ⟨r, f, s⟩ := v
+  simp only [vorMarshalDefault, vorUnmarshal, vorZero]
+  constructor
+  · intro h; cases h; exact ⟨rfl, rfl⟩
+  · rintro ⟨h1, h2⟩
+    change r = true at h1
+    change s = "" at h2
+    subst h1; subst h2; rfl
+
+/-- AnyVal.UnmarshalYAML: the value has the kind of the YAML node — a scalar gives a string
+    leaf holding its text, a sequence a list of the same length, a mapping a container. -/
+theorem anyVal_kind (n : YNode) :
+    (∀ s, n = .scalar s → anyValUnmarshal n = .leaf ⟨"string", s⟩) ∧
+    (∀ xs, n = .seq xs → ∃ ys, anyValUnmarshal n = .list ys ∧ ys.length = xs.length) ∧
+    (∀ kvs, n = .map kvs → ∃ c, anyValUnmarshal n = .cont c) := by
+  refine ⟨?_, ?_, ?_⟩
+  · rintro s rfl; simp [anyValUnmarshal, decodeYamlNode]
+  · rintro xs rfl
+    refine ⟨decodeYamlSeq xs, by simp [anyValUnmarshal, decodeYamlNode], ?_⟩
+    induction xs with
+    | nil => simp [decodeYamlSeq]
+    | cons x xs ih => simp [decodeYamlSeq, ih]
+  · rintro kvs rfl; exact ⟨decodeYamlMap kvs [], by simp [anyValUnmarshal, decodeYamlNode]⟩
+
+end opsExt
 
 end Ytk.C13
